@@ -32,7 +32,10 @@ class Bad:
     """a value whose pickle cannot be loaded in the worker -> FailedStateSync"""
     def __init__(self, tag): self.tag = tag
     def __reduce__(self): return (_boom, (self.tag,))
-def _boom(tag): raise ValueError('cannot load ' + tag)
+def _boom(tag):
+    # loading the pickle fails -- with one of several exception classes: a sync failure is a sync failure whatever its class
+    n = sum(ord(ch) for ch in tag)
+    raise (ValueError, MemoryError, RecursionError, pickle.UnpicklingError)[n % 4]('cannot load ' + tag)
 
 class WorkerProc:
     """one simulated worker process: its own copy of worker.py's module globals"""
